@@ -7,6 +7,7 @@ import (
 	"net/http"
 	"strconv"
 	"strings"
+	"sync"
 	"time"
 
 	"reservoir/zzverif/vsched"
@@ -45,10 +46,10 @@ type Res struct {
 	Headers416     H      // if non-nil, a 416 answer carries these headers instead of Headers
 	AbortOnce      int    // >=0 (with AbortOnceSet): only the next full transfer aborts after that many bytes
 	AbortOnceSet   bool
-	ETag304        string // what a 304 answer prints as ETag: "" = the current ETag, "-" = no validator headers at all, else this value
-	Headers304     H    // further headers a 304 answer carries (payload fields such as Content-Length / Content-Type that describe no body)
+	ETag304        string        // what a 304 answer prints as ETag: "" = the current ETag, "-" = no validator headers at all, else this value
+	Headers304     H             // further headers a 304 answer carries (payload fields such as Content-Length / Content-Type that describe no body)
 	DateSkew       time.Duration // the origin's clock relative to the proxy's: Date = now + DateSkew
-	DialError      bool // the origin cannot be reached: RoundTrip fails before a byte of the request is sent
+	DialError      bool          // the origin cannot be reached: RoundTrip fails before a byte of the request is sent
 }
 
 // ReqRec is one request as the origin received it.
@@ -78,12 +79,29 @@ type Origin struct {
 	Custom func(o *Origin, req *http.Request, rec *ReqRec) *http.Response
 	// Sent lists every successful-looking answer (status, resource, version) in order.
 	cands []Candidate
+	// mu serialises the origin's state outside the scheduler (real goroutines: a handler left behind
+	// by an exchange that timed out may still call the origin while the harness scripts the next case)
+	mu sync.Mutex
+}
+
+func (o *Origin) lk() {
+	if vsched.Mode() == 0 {
+		o.mu.Lock()
+	}
+}
+
+func (o *Origin) ulk() {
+	if vsched.Mode() == 0 {
+		o.mu.Unlock()
+	}
 }
 
 func NewOrigin() *Origin { return &Origin{Resources: map[string]*Res{}} }
 
 // Put registers (or replaces) a resource at uri.
 func (o *Origin) Put(uri string, r *Res) *Res {
+	o.lk()
+	defer o.ulk()
 	if r.AbortAfter == 0 {
 		r.AbortAfter = -1
 	}
@@ -107,6 +125,8 @@ func (o *Origin) noteCand(r *Res) {
 
 // Bump moves a resource to its next version (new body; new ETag/LM if it has them).
 func (o *Origin) Bump(uri string) {
+	o.lk()
+	defer o.ulk()
 	r := o.Resources[uri]
 	r.Version++
 	if r.ETag != "" {
@@ -144,6 +164,8 @@ func (a *abortReader) Close() error { return nil }
 
 // RoundTrip implements http.RoundTripper.
 func (o *Origin) RoundTrip(req *http.Request) (*http.Response, error) {
+	o.lk()
+	defer o.ulk()
 	uri := req.URL.EscapedPath()
 	if req.URL.RawQuery != "" {
 		uri += "?" + req.URL.RawQuery
@@ -297,6 +319,11 @@ func (o *Origin) respond(req *http.Request, uri string, rec *ReqRec) *http.Respo
 		return MakeResponse(206, h, body[first:last+1], false, -1)
 	}
 	if req.Method == "HEAD" {
+		if r.Chunked {
+			// the origin does not know the length in advance: its HEAD answer has no Content-Length either
+			resp := MakeResponse(status, h, nil, true, -1)
+			return resp
+		}
 		h.Set("Content-Length", strconv.Itoa(len(body)))
 		resp := MakeResponse(status, h, nil, false, -1)
 		resp.ContentLength = int64(len(body))
